@@ -14,6 +14,7 @@ class Context:
         self._globals = SymbolTable()
         self._locals = SymbolTable()
         self._loop_stack = deque()
+        self._outer_loops = deque()
         self._loop_depth = 0
         self._in_matrix = False
         self._in_routine = False
@@ -28,10 +29,14 @@ class Context:
         self._in_matrix = False
         self._globals.clear()
         self._locals.clear()
-        self._loop_stack.clear()
+        self._loop_stack = deque()
+        self._outer_loops = deque()
 
     def enter_routine(self) -> None:
+        # A routine body is not part of the loops around its definition.
         self._in_routine = True
+        self._outer_loops = self._loop_stack
+        self._loop_stack = deque()
 
     def in_routine(self) -> bool:
         return self._in_routine
@@ -39,6 +44,7 @@ class Context:
     def exit_routine(self) -> None:
         self._in_routine = False
         self._locals.clear()
+        self._loop_stack = self._outer_loops
 
     def enter_matrix(self) -> None:
         self._in_matrix = True
